@@ -293,14 +293,18 @@ def parseCalProduct (s : String) : Option (String × String) :=
 def dictSet (d : List (Product S)) (p : Product S) : List (Product S) :=
   if d.any (·.name == p.name) then d.map (fun q => if q.name == p.name then p else q) else d ++ [p]
 
+/-- `len(np.atleast_1d(corr_per_input[0]))` -/
+def firstLen (c : List (List S)) : Except Err Nat :=
+  match c with
+  | [] => .error .index        -- data[0] on an empty list
+  | g :: _ => .ok g.length
+
 /-- number of channels of a product's corrections: `max(len(atleast_1d(c[0])) for c in …)` -/
 def corrNChans (corr : List (List (List S))) : Except Err Nat :=
   match corr with
   | [] => .error .value            -- max() of an empty sequence
   | _ => do
-    let ns ← corr.mapM fun c => match c with
-      | [] => .error .index        -- data[0] on an empty list
-      | g :: _ => .ok g.length
+    let ns ← corr.mapM firstLen
     pure (ns.foldl max 0)
 
 /-- fetch the correction sensors of one product for all inputs: `none` = a sensor is missing -/
